@@ -13,6 +13,7 @@ import LndModel.C02.Total
 import LndModel.C02.RestoreErr
 import LndModel.C02.FwdPkgInv
 import LndModel.C02.Bisim
+import LndModel.C02.TxAtomic
 set_option linter.unusedSimpArgs false
 set_option linter.unusedVariables false
 
@@ -146,6 +147,22 @@ theorem remote_advances_only_on_true_secret (n0 : Node) (h0 : Fresh n0) (s : St)
   have := (bogus_revocation_rejected n0 h0 s hr a m hm).2.2.1
   rw [this] at hch
   exact hch rfl
+
+/-! ## crash points are committed write transactions -/
+
+/-- **crash_points_are_call_boundaries**.  The property quantifies over a stop "at any instant",
+    i.e. after any committed database transaction.  In the model an event commits `writeTxs` ≤ 1
+    transactions (exactly one for a successful SignNextCommitment / RevokeCurrentCommitment /
+    ReceiveRevocation, none otherwise — the harness counts the transactions the real code commits
+    in every call and the driver reports any difference as `write-tx-count`), and an event that
+    commits NO transaction — every memory-only call, every failing call, a refused revocation,
+    `emit`, chan-sync, a restart — leaves the database exactly as it was.  Hence the durable states
+    a node can be stopped in are precisely the states after a prefix of the events, which is what
+    `never_broadcast_revoked`, `restore_commitments`, `restore_failure_kinds`,
+    `fwd_pkgs_follow_remote_chain` quantify over (`evs` arbitrary, crash = the event `.crash`). -/
+theorem crash_points_are_call_boundaries (s : St) (ev : Ev) :
+    s.writeTxs ev ≤ 1 ∧ (s.writeTxs ev = 0 → (s.step ev).disk = s.disk) :=
+  ⟨writeTxs_le_one s ev, no_tx_no_change s ev⟩
 
 /-! ## the durable commitments -/
 
@@ -428,6 +445,10 @@ example : ChainTrace [⟨0, 2, .revoke⟩, ⟨1, 3, .lost⟩, ⟨1, 3, .sync⟩]
   ChainTrace.sync (ChainTrace.produced .lost (by decide) (ChainTrace.produced .revoke (by decide) ChainTrace.nil))
 
 example : invCheck demoNode = true := by decide
+
+/-- a failing call (nothing to sign for … here: nothing to revoke) commits no transaction, a
+    successful revoke after a received commitment commits one. -/
+example : (St.init demoNode).writeTxs (.op .revoke) = 0 := by decide
 
 example : DiskWF (St.init demoNode).disk := diskWF_spec _ (by decide)
 
